@@ -917,6 +917,8 @@ fn submit_resp(r: Option<ToClientMessage>) -> String {
             let id = e.split_whitespace().nth(1).unwrap_or("?").to_string();
             format!("= RESP submit err undefrq {id}")
         }
+        // fix F26: a task array whose explicit ids do not match its entries in number is refused
+        Some(ToClientMessage::Error(e)) if e.contains("does not match the number of entries") => "= RESP submit err idcount".into(),
         other => format!("= RESP submit ?{}", other.is_some()),
     }
 }
@@ -1054,6 +1056,8 @@ async fn gen_trace(id: u64, rng: &mut Rng, tier: &str) -> String {
                     } else {
                         let start = rng.below(6) as u32;
                         let n = entries.unwrap_or(if focus { rng.range(3, 12) as u32 } else { rng.range(1, 9) as u32 });
+                        // malformed stream: now and then more / fewer explicit ids than entries (F26: refused)
+                        let n = if entries.is_some() && rng.chance(1, 6) { if n > 1 && rng.chance(1, 2) { n - 1 } else { n + 1 } } else { n };
                         Some((start..start + n).collect())
                     };
                     let (rq, prio) = if focus {
